@@ -495,6 +495,20 @@ func UseEmb$N() string {
 	}
 	return strings + strings2 + string(rune('0'+sort+sort2*2+sort3*3)) + string(rune('0'+f(1)))
 }`, `Two$N()`},
+	{"typeswitch-var-spelled-like-the-next-candidate", `func tagfn$Nq(s string) string { return "<" + s + ">" }
+
+func Describe$N(v interface{}) string {
+	switch tagfn$Nq2 := v.(type) {
+	case string:
+		if tagfn$Nq2 != "" {
+			tagfn$Nq := "s:"
+			return tagfn$Nq + tagfn$Nq2
+		}
+	case int:
+		return {FMT}Sprint("i:", tagfn$Nq2)
+	}
+	return tagfn$Nq("?")
+}`, `Describe$N("x") + Describe$N(7) + Describe$N(nil)`},
 }
 
 // c15NeedsStrAlias: snippets that declare a local named "strings" and use package strings inside
